@@ -323,22 +323,28 @@ def named_clause(ctx, cr):
                 return st.mon.set(neg=val[1])
             return None
 
-    h = H(cr)
-    try:
-        run_fn(ctx, cr, key, h)
-    except ai.Undecided as e:
-        ctx.ob(rule, rule + ":" + fname, False, "undecided: %s" % e, fn=cr.fns[key])
-        return
+    # the clause is given with its negation flag CONCRETE (one run per value): whether the code branches on the flag, xors it into the
+    # status test or matches on a (status, flag) pair, the outcome per (rule status, flag) is the same table
+    GNC = "rules::exprs::GuardNamedRuleClause"
+    gf = [x["name"] for x in cr.adts[GNC]["variants"][0]["fields"]]
     rows = {}
     bad = []
-    for v, mon, tr in h.results:
-        kind, s = S.ret_status(v)
-        ch = mon.get("child", frozenset())
-        if kind == "ok":
-            if len(ch) != 1 or "Err" in ch or mon.get("neg") is None:
-                bad.append("Ok(%s) with rule statuses %s, negation read=%s" % (s, sorted(ch), mon.get("neg")))
-                continue
-            rows.setdefault((next(iter(ch)), mon.get("neg")), set()).add(s)
+    for negv in (False, True):
+        h = H(cr)
+        fields = tuple(("bool", negv) if n_ == "negation" else ("sym", "GNC.%s" % n_) for n_ in gf)
+        try:
+            run_fn(ctx, cr, key, h, args=[("ref", ("X", "GNC"), ()), None], ext={"GNC": ("enum", GNC, 0, fields)})
+        except ai.Undecided as e:
+            ctx.ob(rule, rule + ":" + fname, False, "undecided: %s" % e, fn=cr.fns[key])
+            return
+        for v, mon, tr in h.results:
+            kind, s = S.ret_status(v)
+            ch = mon.get("child", frozenset())
+            if kind == "ok":
+                if len(ch) != 1 or "Err" in ch:
+                    bad.append("Ok(%s) with rule statuses %s" % (s, sorted(ch)))
+                    continue
+                rows.setdefault((next(iter(ch)), negv), set()).add(s)
     for st_ in S.NAMES:
         for neg in (False, True):
             exp = "PASS" if ((st_ == "PASS") != neg) else "FAIL"
